@@ -79,6 +79,21 @@ CLAIMED = {
         "round-trip is not decided.",
         design_ref="DESIGN.md §4 C05",
     ),
+    "C09": dict(
+        technique=TECH + "version-argument provenance dataflow on read and write paths, who-may-write audit of "
+        "version fields, lock-before-version dominance in the async writer constructor (pre-transform coroutine "
+        "MIR), field-coverage of rollback/remove_all, guard table of the Versioned container",
+        text="Decides structural necessary conditions of C09: every version handed to a read-side accessor is "
+        "the reader's pinned self.version; ReadZone.version is written only at construction and the current "
+        "version moves only through update_current <- publish <- commit; every WriteNode mutation carries "
+        "self.zone.new_version; in ZoneApex::write the writer's version is read and the WriteZone built only "
+        "after the update-lock await completed and the guard is moved into the writer; rollback/remove_all "
+        "cover every versioned field and recurse; a dirty writer's Drop rolls back new_version; "
+        "Versioned::remove/rollback/update/get keep their guard table (pop only the sole same-version entry, "
+        "tombstone otherwise, newest entry <= reader version). The multi-version algebra over arbitrary "
+        "operation sequences and real-thread schedules are not decided.",
+        design_ref="DESIGN.md §4 C09",
+    ),
     "C17": dict(
         technique=TECH + "finite decision-tree enumeration of Serial::partial_cmp against the RFC 1982 "
         "table, guard dominance for add, who-may-compare-raw audit of all serial/timestamp uses",
